@@ -18,12 +18,16 @@ def _c(technique, text, design, note=""):
 
 
 CHECKS = {
-    "C01": _c("Coq proof of the receiver's verification/completion lemmas (partial) + correspondence + read-back oracle under arbitrary fault schedules",
-              "PARTIAL proof (props/C01.v): the receiver sets DATA_COMPLETE only through a successful checksum verification of the "
+    "C01": _c("Coq proof: whole-state-machine invariant of the receiver (success is reported only from a verified state) + verification/CRC lemmas + correspondence + read-back oracle under arbitrary fault schedules",
+              "Proof (props/C01.v, C01b.v): the receiver records DATA_COMPLETE only through a successful checksum verification of the "
               "destination file as it is then (or metadata-only); equal CRC => identical or genuine collision; rejected writes are "
-              "never stored; the sender's report copies the Finished PDU. Not proved as one theorem: the composition over the "
-              "two-handler system under arbitrary fault schedules - the check evaluates exactly that on the implementation (file read "
-              "back at every success report, either side, drop/dup/delay/bit-flip/write-reject schedules, any number of faults).",
+              "never stored; the sender's report copies the Finished PDU. WHOLE STATE MACHINE (C01b): an invariant that holds "
+              "initially and across every API call (any PDU, any history: loss, duplication, reordering, corruption, rejection) "
+              "guarantees that every successful Transaction-Finished indication and every successful Finished PDU is produced from "
+              "a state whose destination file verifies against the recorded EOF checksum and size, and that the file is not touched "
+              "afterwards. PARTIAL in one respect: the two-sided statement 'identical to the SOURCE file' composes this with the "
+              "sender (C07/C09) on paper; the check evaluates it on the implementation (file read back at every success report, "
+              "either side, drop/dup/delay/bit-flip/write-reject schedules, any number of faults).",
               "6/C01"),
     "C02": _c("Coq: unbounded theorems over the executable two-handler system (induction over the file) for unacknowledged, unacknowledged+closure and acknowledged mode + kernel-checked exhaustive evaluation (1152 transfers) + correspondence",
               "Proof (props/C02.v, C02u.v, C02c.v, C02a.v): UNBOUNDED - for every file content and length, segment length >= 1, id / "
